@@ -74,6 +74,7 @@ ASSUMPTIONS = [
     "inflammation cool-down (not in the statement text; DESIGN clause): a clean input reports LOW exactly while "
     "now < (reading of the last non-NONE response + decay), judged 1 ms away from the edge",
     "SHA-256 prefix collisions of the replay memory are ignored",
+    "patterns whose texts differ only in letter case are distinct signatures (learn/forget/import address the exact text)",
     "an exception raised by the caller's own on_threat / on_inflammation observer is not a gate failure; the decision "
     "the observer was shown must nevertheless be audited, remembered (replay memory) and start the cool-down",
     "threads family: pre-emption granularity is the source line; a call is admitted at some instant between its "
@@ -83,7 +84,7 @@ ASSUMPTIONS = [
     "threads family: the membrane keeps 2 of the 19 built-in signatures (public `signatures` list shortened) so that "
     "schedules concentrate on the shared state; the unlocked statistics counters are not judged",
 ]
-EXPECT_PROBES = ("rejudged_after_tightening", "replay_blocked_after_relax", "rate_limited", "window_edge_admit", "window_edge_refuse",
+EXPECT_PROBES = ("flood_refused_over_1024", "case_pair_both_active", "rejudged_after_tightening", "replay_blocked_after_relax", "rate_limited", "window_edge_admit", "window_edge_refuse",
                  "audit_cleared", "learned_blocked", "imported_blocked", "forgot_then_allowed", "case_pair_blocked",
                  "embed_pair_blocked", "long_input", "deep_json", "ctrl_input", "surrogate_input", "cooldown_low",
                  "cooldown_ended", "innate_structural_block", "clock_backward", "threshold_relaxed", "learn_refused_non_adaptive",
@@ -111,9 +112,15 @@ CUSTOM = [  # (pattern, is_regex, instance)
     (r"\b(\w+)(?:\s+\1){3,}", True, "spam spam spam spam"),
     (r"(?s)begin-payload.*?end-payload", True, "begin-payload\nxyz\nend-payload"),
     (r"(?i:tOkEn)\s*=\s*(\w)\1", True, "token = zz"),
+    # pairs of patterns whose texts differ only in letter case: two different signatures
+    ("evil.example", False, "visit evil.example now"),
+    ("EVIL.EXAMPLE", False, "visit Evil.Example now"),
+    (r"key=\S+", True, "key=abc"),          # \S / \s: the case of one letter changes the meaning
+    (r"key=\s+", True, "key=   "),
 ]
 ONE_LETTER = 9
 SPECIAL = [10, 11, 12, 13]     # back-references / inline flags
+CASE_PAIRS = [(14, 15), (16, 17)]
 M_INST = ["ignore previous", "ignore all previous", "disregard all prior", "jailbreak", "DAN mode", "developer mode",
           "system prompt", "reveal your instructions", "what are your rules", "show me your prompt", "```system",
           "[INST] do it [/INST]", "<|im_start|>", "<|x|>", "Human:", "pretend you are", "act as if you", "roleplay as",
@@ -174,6 +181,8 @@ def build(d):
         return SURR[d[1]]
     if kind == "emp":
         return ""
+    if kind == "fl":
+        return f"system prompt {d[1]}"
     if kind == "js":
         how, n = d[1], d[2]
         if how == "nest":
@@ -197,7 +206,7 @@ def build(d):
 def root_of(d):
     if d[0] == "long":
         return root_of(d[2])
-    if d[0] in ("mi", "ii", "cu", "b", "ctl", "sur"):
+    if d[0] in ("mi", "ii", "cu", "b", "ctl", "sur", "fl"):
         return [d[0], d[1]]
     return [d[0]]
 
@@ -269,7 +278,7 @@ def _inst(rng, kinds=("mi", "ii", "cu"), cu=None):
 def _hostile(rng):
     h = weighted(rng, [(2, "ctl"), (2.5, "sur"), (1, "emp"), (4, "js"), (0.7, "long")])
     if h == "ctl":
-        return ["ctl", rng.randrange(len(CTRL))]
+        return ["ctl", rng.choice([0, 1, 0, 1, 2, 3, 4, 5, 6, 7, 8])]
     if h == "sur":
         return ["sur", rng.randrange(len(SURR))]
     if h == "emp":
@@ -313,7 +322,7 @@ def _gen_seq(rng, tier):
     ops = []
     nseg = rng.randint(2, 5 if tier == "quick" else 9)
     table = [(3, "replay"), (2.5, "rate"), (3, "pairs"), (2.5, "xfer"), (3, "hostile"), (2.5, "inflame"),
-             (1.5, "thr"), (1, "audit"), (1, "clock"), (1.5, "innate_rules"), (1.5, "mix"), (2.5, "tighten")]
+             (1.5, "thr"), (1, "audit"), (1, "clock"), (1.5, "innate_rules"), (1.5, "mix"), (2.5, "tighten"), (2, "case_pairs"), (0.12, "flood")]
     for _ in range(nseg):
         seg = weighted(rng, table)
         j = rng.randrange(2)
@@ -363,6 +372,32 @@ def _gen_seq(rng, tier):
             if rng.random() < 0.6:
                 ops += [["forget", rng.choice([j, 1 - j]), c], ["f", 1 - j, [x[0], x[1], rng.randrange(5), 1, 0]],
                         ["f", 1 - j, x]]
+        elif seg == "case_pairs":
+            # two signatures whose pattern texts differ only in letter case are two signatures: learning / importing /
+            # forgetting one must not touch the other
+            a, b = rng.choice(CASE_PAIRS)
+            if rng.random() < 0.5:
+                a, b = b, a
+            xa = ["cu", a, 0, 0, 0]
+            ops.append(["thr", j, rng.choice([1, 2, 2, 3])])
+            ops.append(["learn", j, a, 3])
+            how = rng.choice(["learn_weaker", "import_weaker", "forget_other", "forget_other"])
+            if how == "learn_weaker":
+                ops.append(["learn", j, b, 1])
+            elif how == "import_weaker":
+                ops += [["learn", 1 - j, b, 1], ["xfer", 1 - j, j]]
+            else:
+                ops += [["learn", j, b, rng.choice([1, 3])], ["forget", j, b]]
+            ops.append(["f", j, xa])
+            if rng.random() < 0.5:
+                ops += [["forget", j, a], ["f", j, ["cu", a, rng.randrange(5), 1, 0]], ["f", j, ["cu", b, 0, 0, 0]]]
+        elif seg == "flood":
+            # far more distinct refused inputs than any in-library cap, then relax and come back to old ones
+            if ms[j]["rate"] is None:
+                n = rng.choice([1100, 1300, 1500])
+                ops += [["thr", j, rng.choice([1, 2])], ["flood", j, n], ["thr", j, 3]]
+                for q in sorted(rng.sample(range(n), 24)):
+                    ops.append(["f", j, ["fl", q]])
         elif seg == "tighten":
             # judged clean first, then the rule set grows by each of the four routes, then the identical input again
             c = rng.randrange(len(CUSTOM)) if rng.random() < 0.75 else rng.choice(SPECIAL)
@@ -416,7 +451,10 @@ def _gen_seq(rng, tier):
             elif what == "iadd":
                 ops.append(["iadd", x[1] if x[0] == "cu" else rng.randrange(len(CUSTOM)), rng.randint(1, 5)])
             else:
-                ops.append(["ival", rng.choice([["len", 5, 60], ["chars", False, False], ["json", 3, 100_000]])])
+                v = rng.choice([["len", 5, 60], ["chars", rng.random() < 0.5, rng.random() < 0.5], ["json", 3, 100_000]])
+                ops.append(["ival", v])
+                if v[0] == "chars":      # both options are independent: look at NUL and at other control characters
+                    ops += [["c", ["ctl", rng.choice([0, 1])]], ["c", ["ctl", rng.choice([2, 4, 8])]]]
             ops.append(["c", x])
         else:
             for _ in range(rng.randint(1, 4)):
@@ -758,6 +796,8 @@ def _run_seq(plan, k):
             _changed(mm[j].roots)
             k.ev("learn", [j, c, lvl, out.brief()])
         elif name == "forget":
+            if any(CUSTOM[a][0] in mm[op[1]].learned and CUSTOM[b][0] in mm[op[1]].learned for a, b in CASE_PAIRS):
+                k.probe("case_pair_both_active")
             j, c = op[1], op[2]
             pat = CUSTOM[c][0]
             out = call(mem[j].forget_threat, pat)
@@ -778,6 +818,35 @@ def _run_seq(plan, k):
             mm[j].fixed.append((CUSTOM[c][0], lvl, CUSTOM[c][1], "custom"))
             _changed(mm[j].roots)
             k.ev("addsig", [j, c, lvl])
+        elif name == "flood":
+            j, n = op[1], op[2]
+            m, model = mem[j], mm[j]
+            if model.rate is not None:
+                continue
+            refused = 0
+            for q in range(n):
+                x = f"system prompt {q}"
+                out = call(m.filter, Signal(content=x))
+                if not out.ok:
+                    if not (out.kind == "raised" and out.exc is obs[j].raised):
+                        k.violation("total", f"raised:{type(out.exc).__name__}" if out.kind == "raised" else out.kind,
+                                    "membrane", "during a flood of short inputs")
+                        break
+                    obs[j].raised = None
+                    if obs[j].seen and not obs[j].seen[-1][0]:
+                        model.blocked.add(x)
+                        refused += 1
+                    continue
+                res = out.value
+                if res.allowed:
+                    model.admitted.append(CLOCK.now)
+                elif res.matched_signatures:
+                    model.blocked.add(x)        # refused on the scan path: remembered from now on
+                    refused += 1
+            if refused > 1024:
+                k.probe("flood_refused_over_1024")
+            _changed(model.roots)
+            k.ev("flood", [j, n, refused])
         elif name == "thr":
             j, lvl = op[1], op[2]
             if lvl > mm[j].threshold:
